@@ -171,6 +171,8 @@ fn check_lines(c: &TextCase, obs: &mut Obs) -> Verdict {
 fn strat(tier: Tier) -> BoxedStrategy<Case> {
     prop_oneof![
         16 => seq_case(tier.pick(100, 300), true, 3).prop_map(Case::Seq),
+        // (weights are out of 21 + 1/10: about 1 case in 200)
+        1 => prop_oneof![9 => seq_case(12, true, 3), 1 => big_seq_case(tier)].prop_map(Case::Seq),
         4 => line_case(tier.pick(40, 120), false).prop_map(Case::Lines),
         1 => big_line_case(tier.pick(130, 300)).prop_map(Case::Lines),
     ]
